@@ -276,9 +276,9 @@ fn itermut_zst(al: i128, nrows: usize, ncols: usize, order: i128, axis: i128, sc
         }
         matreex::verif_hooks::start_ptr_recording();
         let out = if axis == 0 {
-            crate::hist::run_nested_pub(m.iter_rows_mut(), script, |_x: &mut T| "_".to_string())
+            crate::hist::run_nested_pub(m.iter_rows_mut(), script, |_x: &mut T| "()".to_string())
         } else {
-            crate::hist::run_nested_pub(m.iter_cols_mut(), script, |_x: &mut T| "_".to_string())
+            crate::hist::run_nested_pub(m.iter_cols_mut(), script, |_x: &mut T| "()".to_string())
         };
         let events = matreex::verif_hooks::take_ptr_events();
         let null = events.iter().any(|(_, a)| *a == 0);
